@@ -21,6 +21,7 @@ import (
 	"fmt"
 	"io"
 	"net"
+	"os"
 	"strings"
 	"sync"
 	"testing"
@@ -35,15 +36,29 @@ import (
 type vSdConn struct {
 	closed chan struct{}
 	once   sync.Once
+	dl     chan struct{} // closed by SetReadDeadline(<= now): Abort() relies on it to unblock the read loop
+	dlOnce sync.Once
 }
 
-func (c *vSdConn) LocalAddr() net.Addr                { return nil }
-func (c *vSdConn) RemoteAddr() net.Addr               { return nil }
-func (c *vSdConn) SetDeadline(t time.Time) error      { return nil }
-func (c *vSdConn) SetReadDeadline(t time.Time) error  { return nil }
+func (c *vSdConn) LocalAddr() net.Addr           { return nil }
+func (c *vSdConn) RemoteAddr() net.Addr          { return nil }
+func (c *vSdConn) SetDeadline(t time.Time) error { return nil }
+func (c *vSdConn) SetReadDeadline(t time.Time) error {
+	if !t.IsZero() && !t.After(time.Now()) {
+		c.dlOnce.Do(func() { close(c.dl) })
+	}
+	return nil
+}
 func (c *vSdConn) SetWriteDeadline(t time.Time) error { return nil }
 
-func (c *vSdConn) Read(b []byte) (int, error)  { <-c.closed; return 0, io.EOF }
+func (c *vSdConn) Read(b []byte) (int, error) {
+	select {
+	case <-c.closed:
+		return 0, io.EOF
+	case <-c.dl:
+		return 0, os.ErrDeadlineExceeded
+	}
+}
 func (c *vSdConn) Write(b []byte) (int, error) { return len(b), nil }
 func (c *vSdConn) Close() error                { c.once.Do(func() { close(c.closed) }); return nil }
 
@@ -111,6 +126,8 @@ func (h *vSd) chunkSummary(from int, c chunk) string {
 		return "SA"
 	case *chunkShutdownComplete:
 		return "SC"
+	case *chunkAbort:
+		return "AB"
 	default:
 		return "X:" + strings.ReplaceAll(vChunkSummary(c), " ", "_")
 	}
@@ -171,8 +188,8 @@ func (h *vSd) dump(x int) string {
 		}
 		s.lock.RUnlock()
 	}
-	return fmt.Sprintf("st=%d ws=%d wa=%d wc=%d scp=%d t2=%d ack=%d pn=%d if=%d cum=%d pl=%d rq=%s dead=%s sr=%s rx=%d re=%d",
-		a.getState(), b(a.willSendShutdown), b(a.willSendShutdownAck), b(a.willSendShutdownComplete), b(a.shutdownCompletePending),
+	return fmt.Sprintf("st=%d ws=%d wa=%d wc=%d scp=%d scr=%d ab=%d t2=%d ack=%d pn=%d if=%d cum=%d pl=%d rq=%s dead=%s sr=%s rx=%d re=%d",
+		a.getState(), b(a.willSendShutdown), b(a.willSendShutdownAck), b(a.willSendShutdownComplete), b(a.shutdownCompletePending), b(a.shutdownCompleteReceived), b(a.willSendAbort),
 		t2, a.ackState, a.pendingQueue.size(), a.inflightQueue.size(), a.cumulativeTSNAckPoint-e.base+1, cumP-peer.base+1, rqs,
 		dead, e.sr, rx, re)
 }
@@ -185,7 +202,22 @@ func (h *vSd) settle() {
 			continue
 		}
 		if !e.wlExited && vSdChanClosed(e.a.closeWriteLoopCh) {
-			// writeLoop: `case <-a.closeWriteLoopCh: … break loop` followed by the two statements after the loop
+			// writeLoop: `case <-a.closeWriteLoopCh:` — with an ABORT pending it makes one more pass (the packet is
+			// written to a conn that is closed or failed: it never reaches the wire) — `break loop`, then the two
+			// statements after the loop
+			e.a.lock.RLock()
+			abortPending := e.a.willSendAbort
+			e.a.lock.RUnlock()
+			if abortPending {
+				if raws, ok := e.a.gatherOutbound(); !ok {
+					for _, raw := range raws {
+						if len(raw) > int(commonHeaderSize) && raw[commonHeaderSize] == byte(ctAbort) {
+							e.a.abortSentOnce.Do(func() { close(e.a.abortSentCh) })
+						}
+					}
+					_ = e.a.close()
+				}
+			}
 			e.a.setState(closed)
 			e.a.closeAllTimers()
 			e.wlExited = true
@@ -216,6 +248,8 @@ func (h *vSd) closeAll() {
 			continue
 		}
 		_ = e.conn.Close() // the read loop returns; it closes closeWriteLoopCh, which ends timerLoop and a waiting Shutdown
+		a := e.a
+		a.abortSentOnce.Do(func() { close(a.abortSentCh) }) // lets an Abort call that is still in its 200 ms wait return
 		e.a.closeAllTimers()
 		h.ep[i] = nil
 	}
@@ -234,6 +268,9 @@ func (h *vSd) collect(x int) (string, int) {
 	for _, r := range raws {
 		e.hist = append(e.hist, append([]byte(nil), r...))
 		parts = append(parts, h.packetSummary(x, r))
+		if len(r) > int(commonHeaderSize) && r[commonHeaderSize] == byte(ctAbort) {
+			e.a.abortSentOnce.Do(func() { close(e.a.abortSentCh) }) // as writeLoop does after the write
+		}
 	}
 	if !ok {
 		// writeLoop: `if !ok { a.close(); return }`
@@ -289,7 +326,7 @@ func (h *vSd) exec(op []string) {
 		h.ns = arg(3)
 		h.gatePassed = false
 		for x := 0; x < 2; x++ {
-			conn := &vSdConn{closed: make(chan struct{})}
+			conn := &vSdConn{closed: make(chan struct{}), dl: make(chan struct{})}
 			cfg := &Config{
 				NetConn:       conn,
 				LoggerFactory: &logging.DefaultLoggerFactory{DefaultLogLevel: logging.LogLevelDisabled, ScopeLevels: map[string]logging.LogLevel{}, Writer: io.Discard},
@@ -404,7 +441,13 @@ func (h *vSd) exec(op []string) {
 			return
 		}
 		if err := h.ep[y].a.handleInbound(append([]byte(nil), h.ep[x].hist[i]...)); err != nil {
-			t.Fatalf("sd: handleInbound: %v", err)
+			if !errors.Is(err, ErrChunk) {
+				t.Fatalf("sd: handleInbound: %v", err)
+			}
+			// an ABORT: the read loop that called handleInbound would return with this error. handleAbort has closed the
+			// conn already, so the real read loop of the harness returns too (it reports EOF instead of the ABORT error
+			// to the streams: the only difference of this stand-in)
+			_ = h.ep[y].conn.Close()
 		}
 		h.line(line, sum)
 	case "t2":
@@ -466,8 +509,8 @@ func (h *vSd) exec(op []string) {
 			switch {
 			case err == nil:
 				t.Fatalf("sd: read after drain returned data")
-			case errors.Is(err, io.EOF):
-				cl = "eof"
+			case errors.Is(err, io.EOF), errors.Is(err, os.ErrDeadlineExceeded):
+				cl = "eof" // the read loop ended: conn closed, or (Abort) its read deadline set to now — whichever it saw first
 			default:
 				cl = "err"
 			}
@@ -477,6 +520,30 @@ func (h *vSd) exec(op []string) {
 			r = strings.Join(ids, ",")
 		}
 		h.line(line, "r="+r+" "+cl)
+	case "close": // the real Association.Close (close() and the wait for the read loop)
+		e := h.ep[arg(2)]
+		res := "ok"
+		if vSdChanClosed(e.a.readLoopCloseCh) {
+			res = "already"
+		}
+		done := make(chan struct{})
+		a := e.a
+		go func() { _ = a.Close(); close(done) }()
+		synctest.Wait()
+		select {
+		case <-done:
+		default:
+			t.Fatalf("sd: Close did not return")
+		}
+		h.l.stat("sd.close_api")
+		h.line(line, res)
+	case "abort": // the real Association.Abort in its own goroutine: it leaves the ABORT to the write loop and waits
+		e := h.ep[arg(2)]
+		a := e.a
+		go func() { a.Abort("verif") }()
+		synctest.Wait()
+		h.l.stat("sd.abort_api")
+		h.line(line, "called")
 	case "closeconn": // the transport under X fails / is closed by the other layer
 		e := h.ep[arg(2)]
 		res := "ok"
@@ -674,6 +741,47 @@ func (h *vSd) scripted(kind int, r *vrand) {
 		h.do("sd gather 0") // SHUTDOWN-COMPLETE
 		h.do("sd deliver 0 %d", h.newest(0))
 		h.l.stat("sd.scripted_pending_data")
+	case 6: // D22: Shutdown is waiting with data still queued, the local transport fails: it must NOT return nil
+		h.do("sd write 0 0 10")
+		h.do("sd shutdown 0")
+		h.do("sd closeconn 0")
+		h.do("sd read 1 0")
+		h.l.stat("sd.scripted_transport_failure_during_shutdown")
+	case 7: // Close() resp. Abort() while Shutdown waits (same channel): error, unless SHUTDOWN-ACK had already arrived
+		h.do("sd write 0 0 10")
+		h.do("sd gather 0")
+		h.do("sd shutdown 0")
+		if r.chance(50) {
+			h.do("sd close 0")
+		} else {
+			h.do("sd abort 0")
+			h.do("sd gather 0") // ABORT goes out, the write loop closes the association
+			h.do("sd deliver 0 %d", h.newest(0))
+		}
+		h.l.stat("sd.scripted_close_or_abort_during_shutdown")
+	case 8: // SHUTDOWN-ACK received, then the transport fails before SHUTDOWN-COMPLETE is sent: nil is right, all was delivered
+		h.do("sd write 0 0 10")
+		h.do("sd gather 0")
+		h.do("sd deliver 0 0")
+		h.do("sd ackt 1")
+		h.do("sd gather 1")
+		h.do("sd deliver 1 0")
+		h.do("sd shutdown 0")
+		h.do("sd gather 0")
+		h.do("sd deliver 0 1")
+		h.do("sd gather 1")
+		h.do("sd deliver 1 1") // SHUTDOWN-ACK: shutdownCompletePending
+		switch r.n(3) {
+		case 0:
+			h.do("sd closeconn 0")
+		case 1:
+			h.do("sd close 0")
+		default:
+			h.do("sd abort 0")
+			h.do("sd gather 0")
+		}
+		h.do("sd read 1 0")
+		h.l.stat("sd.scripted_failure_after_shutdown_ack")
 	}
 }
 
@@ -682,15 +790,15 @@ func (h *vSd) scripted(kind int, r *vrand) {
 func vSdGenerate(h *vSd, r *vrand, nseq int) {
 	bases := []uint32{1000, 2000, 4294967294, 4294967290, 2147483646, 77}
 	if vEnvInt("VERIF_SD_SCRIPTED", 0) == 1 { // the scripted corner cases alone (this is how corpus/C08/sd_*.ops were written)
-		for kind := 0; kind < 6; kind++ {
-			h.do("sd new %d 2 %d %d", kind&1, bases[kind], bases[5-kind])
+		for kind := 0; kind < 9; kind++ {
+			h.do("sd new %d 2 %d %d", kind&1, bases[kind%6], bases[5-kind%6])
 			h.scripted(kind, r)
 			for x := 0; x < 2; x++ {
 				for sid := 0; sid < 2; sid++ {
 					h.do("sd read %d %d", x, sid)
 				}
 			}
-			h.do("sd fin 1")
+			h.do("sd fin %d", vSdB2i(kind < 6)) // the last three leave the peer alone on purpose
 		}
 		return
 	}
@@ -698,7 +806,7 @@ func vSdGenerate(h *vSd, r *vrand, nseq int) {
 		ns := 1 + r.n(3)
 		h.do("sd new %d %d %d %d", s&1, ns, bases[r.n(len(bases))], bases[r.n(len(bases))])
 		if s%4 == 3 {
-			h.scripted((s/4)%6, r)
+			h.scripted((s/4)%9, r)
 		}
 		// chaos phase: mostly progressing, with loss / duplication / reordering / stale replays
 		nops := 4 + r.n(50)
@@ -786,9 +894,16 @@ func vSdGenerate(h *vSd, r *vrand, nseq int) {
 			case k < 99:
 				h.do("sd shutdown %d", x)
 			default:
-				if r.chance(30) {
-					h.do("sd closeconn %d", x)
-					h.l.stat("sd.gen_closeconn")
+				if r.chance(45) {
+					switch r.n(3) {
+					case 0:
+						h.do("sd closeconn %d", x)
+						h.l.stat("sd.gen_closeconn")
+					case 1:
+						h.do("sd close %d", x)
+					default:
+						h.do("sd abort %d", x)
+					}
 				} else {
 					h.do("sd gather %d", x)
 				}
